@@ -126,9 +126,12 @@ def run_gen_phase(ctx):
     # overlap test that only looked back when a field started below the END OF THE PREVIOUSLY DECLARED one)
     import itertools
     trio = [("high", 8, 16), ("low", 0, 4), ("mid", 10, 12)]
-    for perm in itertools.permutations(trio):
+    for k, perm in enumerate(itertools.permutations(trio)):
         fixed.append({"config": adef.mk_config(register_address_type="u16", default_byte_order="LE"), "objects": [
             adef.mk_register("Ra", 0, 16, [adef.mk_field(n, "uint", a, b) for n, a, b in perm])]})
+        if k % 2:
+            # the flag written out as `false` is the flag absent (seed C02-11: the DSL took the mere presence of the item as true)
+            fixed[-1]["objects"][0]["allow_bit_overlap"] = False
     # a bool written as a bare bit index is ONE bit wide wherever it is looked at: on the first bit of another field, on
     # the bit of another bool, in either declaration order (seed C02-9 compared it as the empty range it is before the bool
     # pass widens it)
